@@ -230,7 +230,7 @@ func couldReachC(run *vkit.Run) {
 
 // ---------- D: scaling ----------
 func scalingD(run *vkit.Run) {
-	n := run.N(30000, 1500000)
+	n := run.N(100000, 1500000)
 	var mu sync.Mutex
 	vkit.Parallel(n, runtime.GOMAXPROCS(0), func(i int) {
 		rng := rand.New(rand.NewSource(run.SubSeed(int64(2000 + i))))
@@ -334,7 +334,7 @@ func scalingD(run *vkit.Run) {
 
 // ---------- E: cross-component agreement at the boundary ----------
 func crossE(run *vkit.Run) {
-	n := run.N(1500, 60000)
+	n := run.N(8000, 60000)
 	var mu sync.Mutex
 	var accepted, rejected atomic.Int64
 	vkit.Parallel(n, runtime.GOMAXPROCS(0), func(i int) {
